@@ -8,13 +8,6 @@ namespace WuffsVerif.Indent
 
 /-! ### one code line, twice -/
 
-/-- ghost: every raw search of this line's scan found its end quote -/
-def codeLineClosed (st : St) (line tail : Bytes) : Bool :=
-  let line1 := line.drop (closeBracesOf line)
-  match scan (line1.length + tail.length + 1) (nBracesAtLineStart st line) st.nParens (lastNonWs line1) true [] [] line1 tail with
-  | some r => r.closed
-  | none => true
-
 theorem trimT_split (l : Bytes) : ∃ z, AllWs z ∧ l = trimTrailingWs l ++ z := by
   induction l with
   | nil => exact ⟨[], by simp [AllWs], by simp [trimTrailingWs_nil]⟩
@@ -269,22 +262,6 @@ end WuffsVerif.Indent
 namespace WuffsVerif.Indent
 
 /-! ### the whole run, twice -/
-
-/-- ghost: every raw search of the run found its end quote (the text is lexically closed as far
-as raw strings and slash-star comments go; an unterminated "…" or '…' just ends with its line) -/
-def loopClosed (o : Opts) (ii : Nat) : Nat → St → Bytes → Bool
-  | 0, _, _ => true
-  | f + 1, st, src0 =>
-    if src0.isEmpty then true else
-    let lt := splitLine (trimLeadingWs src0)
-    match lt.1 with
-    | [] => loopClosed o ii f { st with nBlank := st.nBlank + 1 } (lt.2.drop 1)
-    | c0 :: l =>
-      if st.preproc || c0 == HASH then loopClosed o ii f (preprocLine o ii st (c0 :: l)).2 (lt.2.drop 1)
-      else
-        match codeLine o ii st (c0 :: l) lt.2 with
-        | none => true
-        | some x => codeLineClosed st (c0 :: l) lt.2 && loopClosed o ii f x.2.1 (x.2.2.drop 1)
 
 theorem loop_mono (o : Opts) (ii : Nat) : ∀ (f : Nat) (st : St) (src out : Bytes),
     loop o ii f st src = some out → loop o ii (f + 1) st src = some out := by
